@@ -45,8 +45,12 @@ def write(env, build_inputs):
     rule_handler.run(build_inputs.edges(), build_inputs, buildfile, env)
     post_rules_hook.run(build_inputs, buildfile, env)
 
-    with open(filepath.string(env.base_dirs), 'w') as out:
+    # Write to a temporary file first so that the previous Makefile stays intact
+    # (rather than empty or truncated) if we fail or get killed partway.
+    outpath = filepath.string(env.base_dirs)
+    with open(outpath + '.tmp', 'w') as out:
         buildfile.write(out)
+    os.replace(outpath + '.tmp', outpath)
 
 
 def flags_vars(name, value, buildfile):
